@@ -257,7 +257,7 @@ static void nested_index_family(Rng& r) {
   int nvar = R * C + 1;
   for (int k = 0; k < 3; k++) {
     IntervalVector b1 = gen_box(r, nvar), b2 = gen_box(r, nvar);
-    try { Interval y = f.eval(b1); if (!y.is_empty() && !y.is_unbounded()) { IntervalVector hb = b1; f.backward(Interval(y.lb(), y.mid()), hb); } } catch (...) {}
+    try { Interval y = f.eval(b1); if (!y.is_empty()) { IntervalVector hb = b1; f.backward(y.is_unbounded() ? Interval(0, 1) : Interval(y.lb(), y.mid()), hb); } } catch (...) {}
     Interval res = f.eval(b2); check_round_up("eval-nested-index");
     string rt = res.is_empty() ? string("E") : mtok(res);
     for (int q = 0; q < 3; q++) { Vector p = pick_point(r, b2); EMIT("evalpt %s %s => %s\n", dag.c_str(), ptok(p).c_str(), rt.c_str()); }
